@@ -2,7 +2,7 @@
 From Coq Require Import String.
 From Coq Require Import ZArith List Bool.
 From LasV Require Import Lib.Base Lib.Layout Gen.GenHeaderLayout Gen.GenFormatBits Gen.GenDims Model.Las Model.LasSpec
-  Proofs.HeaderLen Proofs.VlrProofs Proofs.HeaderProofs Proofs.WriterProofs Proofs.RoundTripProofs.
+  Model.LasFast Proofs.HeaderLen Proofs.VlrProofs Proofs.HeaderProofs Proofs.WriterProofs Proofs.RoundTripProofs Proofs.CrashProofs Proofs.LasFastProofs.
 Import ListNotations.
 Open Scope list_scope.
 Open Scope Z_scope.
@@ -36,3 +36,26 @@ Theorem C19_rewrite_in_place : forall h vl h' bs, enc_header h vl true = Ok (h',
   aint h' "offset_to_point_data" = aint h "offset_to_point_data" /\ len bs = aint h "offset_to_point_data".
 Proof. exact enc_header_same_size. Qed.
 Print Assumptions C19_rewrite_in_place.
+
+(* torn little-endian counter: overwritten byte by byte (low bytes first) from 0, it never exceeds the new count *)
+Theorem C19_torn_counter : forall n v j, 0 <= v < 256 ^ Z.of_nat n -> (j <= n)%nat ->
+  0 <= le_dec (firstn j (le_enc n v) ++ skipn j (le_enc n 0)) <= v.
+Proof. exact torn_le_zero. Qed.
+Print Assumptions C19_torn_counter.
+
+(* EVERY crash image of a one-shot or chunked writer session - after k complete low-level writes and j bytes of the next,
+   the in-place header rewrite included, all four versions - is refused or read as a prefix of the points being stored *)
+Theorem C19_crash_safe : forall ap h vl fmt chunks evl hb0 eb h' hb1 k j,
+  enc_header (with_stats h stats0) vl false = Ok hb0 ->
+  enc_vlrs true evl = Ok eb ->
+  final_hdr ap h vl fmt (concat chunks) evl = Ok h' ->
+  enc_header (with_stats (fst hb0) (stats_of_header h')) vl true = Ok hb1 ->
+  wf_header h' vl = true -> wf_header (fst hb0) vl = true -> forallb (wf_vlr true) evl = true ->
+  recs_ok (aint h' "point_size") (concat chunks) = true -> 0 < aint h' "point_size" ->
+  reads_prefix_or_fails (crash_image (write_trace (snd hb0) chunks eb (snd hb1)) k j) (concat chunks).
+Proof. exact crash_safe. Qed.
+Print Assumptions C19_crash_safe.
+
+Theorem C19_executable_twin : forall src, read_file_f src = read_file src.
+Proof. exact read_file_f_eq. Qed.
+Print Assumptions C19_executable_twin.
